@@ -134,7 +134,17 @@ func oracle(c Case) error {
 var reserved = []string{"telegram.me", "telegram.dog", "t.me", "tx.me", "telesco.pe"}
 var lookalikes = []string{"t.me.evil.com", "xt.me", "evil.com", "t.mee", "telegram.org", "tme", "t-me", "localhost", "example.t.me", "t.me.", "t.me@evil.com"}
 
+// longName: nothing in the statement bounds the length of a link, a username or an invite token
+func longName(t *rapid.T, label string) string {
+	n := rapid.SampledFrom([]int{200, 255, 256, 1000, 2000, 2047, 2048, 2049, 4096, 8192, 9000}).Draw(t, label+"-len") + rapid.IntRange(-3, 3).Draw(t, label+"-delta")
+	unit := rapid.StringMatching(`[A-Za-z0-9_]{1,7}`).Draw(t, label+"-unit")
+	return strings.Repeat(unit, n/len(unit)+1)[:n]
+}
+
 func genName(t *rapid.T, label string) string {
+	if rapid.IntRange(0, 39).Draw(t, label+"-long") == 0 {
+		return longName(t, label)
+	}
 	return rapid.OneOf(
 		rapid.StringMatching(`[A-Za-z0-9_\-]{1,32}`),
 		rapid.StringMatching(`[A-Z][a-zA-Z0-9_]{4,12}`),
@@ -199,6 +209,9 @@ func gen(t *rapid.T) (Case, string) {
 		path = "/%" + rapid.StringMatching(`[0-9A-Fa-f]{2}`).Draw(t, "esc") + name
 	}
 	tail := rapid.SampledFrom([]string{"", "", "?start=1", "#frag", "?a=b#c", "?", "#", "?domain=other&post=5", "?invite=zzz"}).Draw(t, "tail")
+	if rapid.IntRange(0, 39).Draw(t, "long-tail") == 0 {
+		tail = rapid.SampledFrom([]string{"?start=", "#", "?a=b&c="}).Draw(t, "long-tail-kind") + longName(t, "tailv")
+	}
 	link := scheme + host + port + path + tail
 	c := Case{Link: link}
 	// asserted sub-domain
